@@ -87,6 +87,14 @@ package memberlist
 //@   loop 0 invariant parsed == finished
 //@   at exit: assert every_entry_handled: parsed == finished
 //@
+//@ # ---- C06 / C04: the full-state exchange carries every stored value as it is stored (a removal exists only as a
+//@ # tombstone inside the value, so a stripped or otherwise rewritten copy would hide acknowledged removals from peers that
+//@ # missed the gossip), under the entry's own key, codec and deletion flag
+//@ func KV.LocalState
+//@   property C06 C04
+//@   at before@codec.Codec.Encode: assert full_value: same($a0, val.value)
+//@   at before@memberlist.KeyValuePair.Marshal: assert pair: kvPair.Key == key && kvPair.Codec == val.CodecID && kvPair.Deleted == val.Deleted && same(kvPair.Value, encoded)
+//@
 //@ # frames of helpers that do not touch the store (assumed: by inspection they only use other fields)
 //@ assume func KV.GetCodec
 //@   modifies nothing
